@@ -62,7 +62,7 @@ def confirm(name):
     d = os.path.join(SEEDED, name)
     meta = json.load(open(os.path.join(d, "meta.json")))
     pid = meta["property"]
-    wt = f"/tmp/seed_{pid}"
+    wt = meta.get("worktree") or f"/tmp/seed_{pid}"
     res = {"name": name, "at": time.strftime("%Y-%m-%d %H:%M:%S"), "worktree": wt}
     sh(f"git -C /repo worktree remove --force {wt}")
     shutil.rmtree(wt, ignore_errors=True)
